@@ -114,8 +114,8 @@ enum Shape {
 }
 
 /// random split tree over a producer of length `len`; `budget` bounds the number of nodes
-fn random_tree(r: &mut Rng, len: usize, shape: Shape, stop: f64, budget: &mut usize, depth: usize) -> Tree {
-  if *budget == 0 || depth > std::env::var("VH_DEPTH").ok().and_then(|s| s.parse().ok()).unwrap_or(400) || r.unit() < stop {
+fn random_tree(r: &mut Rng, len: usize, shape: Shape, stop: f64, budget: &mut usize, depth: usize, max_depth: usize) -> Tree {
+  if *budget == 0 || depth > max_depth || r.unit() < stop {
     return Tree::Leaf;
   }
   let k = match shape {
@@ -144,8 +144,8 @@ fn random_tree(r: &mut Rng, len: usize, shape: Shape, stop: f64, budget: &mut us
     },
   };
   *budget -= 1;
-  let l = random_tree(r, k, shape, stop, budget, depth + 1);
-  let rt = random_tree(r, len - k, shape, stop, budget, depth + 1);
+  let l = random_tree(r, k, shape, stop, budget, depth + 1, max_depth);
+  let rt = random_tree(r, len - k, shape, stop, budget, depth + 1, max_depth);
   Tree::Node(k, Box::new(l), Box::new(rt))
 }
 
@@ -564,8 +564,8 @@ fn worst_rel(a: &[f64], b: &[f64], block: usize) -> (f64, usize, f64) {
 use spdcalc::{Frequency, Wavelength};
 
 fn pools_part(ctx: &mut Ctx) {
-  let pools: Vec<usize> = if ctx.thorough { vec![1, 2, 3, 4, 8, 16] } else { vec![1, 2, 4] };
-  let reps = if ctx.thorough { 5 } else { 1 };
+  let pools: Vec<usize> = if ctx.thorough { vec![1, 2, 3, 4, 8, 16] } else { vec![1, 2, 4, 8] };
+  let reps = if ctx.thorough { 5 } else { 2 };
   let cap = Duration::from_secs(if ctx.thorough { 600 } else { 240 });
 
   // ---- (a) traversal of the grids themselves through rayon (collect / enumerate)
@@ -655,9 +655,9 @@ fn pools_part(ctx: &mut Ctx) {
   // ---- (b) every `*_range` function: bit-identical arrays for every pool size
   let spdc = SPDC::default();
   let shapes: Vec<(usize, usize, bool)> = if ctx.thorough {
-    vec![(1, 1, true), (2, 3, true), (7, 5, true), (16, 16, false), (33, 20, false)]
+    vec![(1, 1, true), (2, 3, true), (7, 5, true), (16, 16, false), (33, 20, false), (64, 48, false)]
   } else {
-    vec![(2, 3, true), (9, 8, false)]
+    vec![(2, 3, true), (9, 8, false), (20, 20, false)]
   };
   let kinds = [RangeKind::Wavelength, RangeKind::Frequency, RangeKind::SumDiff, RangeKind::FlatWavelength, RangeKind::FlatFrequency];
   // Per-point evaluation is sequential (hence the arrays must be bit-identical) for every function
@@ -798,7 +798,7 @@ fn pools_part(ctx: &mut Ctx) {
   }
 
   // ---- (d) nested parallel regions complete (no deadlock), on every pool size including 1
-  let nested_pools: Vec<usize> = if ctx.thorough { vec![1, 2, 3, 4, 8, 16] } else { vec![1, 2] };
+  let nested_pools: Vec<usize> = if ctx.thorough { vec![1, 2, 3, 4, 8, 16] } else { vec![1, 2, 4] };
   for &k in nested_pools.iter() {
     for (name, n) in [("simpson200-in-jsi_range", if ctx.thorough { 12 } else { 6 }), ("simpson2d-in-jsi_singles_range", if ctx.thorough { 5 } else { 3 }), ("simpson2d-in-counts_singles", 3)] {
       let sp = spdc.clone();
@@ -934,7 +934,9 @@ fn split_part(ctx: &mut Ctx) {
     }
   }
 
-  // ---- random trees
+  // ---- random trees.  Depth is capped at 400 (rayon's bridge halves, so it never exceeds
+  // ⌈log2 len⌉ ≤ 14 here); `depth=<n>` as an extra argument raises the cap for experiments.
+  let max_depth: usize = ctx.extra.iter().find_map(|a| a.strip_prefix("depth=").and_then(|v| v.parse().ok())).unwrap_or(400);
   let big = if ctx.thorough { 10_000 } else { 600 };
   let shapes = [Shape::Uniform, Shape::Bisect, Shape::Edge, Shape::Contract];
   for i in 0..ctx.n {
@@ -947,7 +949,7 @@ fn split_part(ctx: &mut Ctx) {
     };
     let stop = *ctx.rng.pick(&[0.0, 0.02, 0.1, 0.3]);
     let mut budget = if shape == Shape::Contract { 200 } else { 20_000 };
-    let t = random_tree(&mut ctx.rng, n, shape, stop, &mut budget, 0);
+    let t = random_tree(&mut ctx.rng, n, shape, stop, &mut budget, 0, max_depth);
     let a = gen_endpoint(&mut ctx.rng);
     let b = gen_endpoint(&mut ctx.rng);
     // K lines of big cases are long: emit them for moderate sizes, keep S on all
@@ -965,7 +967,7 @@ fn split_part(ctx: &mut Ctx) {
     let ny = ctx.rng.below(m + 1);
     let stop = *ctx.rng.pick(&[0.0, 0.02, 0.1, 0.3]);
     let mut budget = if shape == Shape::Contract { 200 } else { 20_000 };
-    let t = random_tree(&mut ctx.rng, nx * ny, shape, stop, &mut budget, 0);
+    let t = random_tree(&mut ctx.rng, nx * ny, shape, stop, &mut budget, 0, max_depth);
     let e: Vec<f64> = (0..4).map(|_| gen_endpoint(&mut ctx.rng)).collect();
     let emit = nx * ny <= 1_500 || i % 8 == 0;
     tree2_case(ctx, (e[0], e[1], nx), (e[2], e[3], ny), &t, &format!("random/{:?}", shape), emit);
